@@ -1521,3 +1521,4 @@ Proof.
   assert (Hc : c = cfg cfgs k) by (unfold cfg; symmetry; apply nth_error_nth; auto).
   subst c. pose proof (WR k s Hk C1). lia.
 Qed.
+
